@@ -117,6 +117,23 @@ def runDial (p : Params) (t : List String) (implObs : String) : String × List S
 def wiringExpected : String :=
   "incoming.force=ForceIncomingEncryption outgoing.disable,force=DisableOutgoingEncryption,ForceOutgoingEncryption"
 
+/-- Oracle of the `wiring` case.  When the call sites pass recognisable configuration fields but
+the wrong ones, a consistent configuration with a force flag set reaches `Accept` / `Dial` with the
+flag cleared (or with encryption disabled): the forced setting is not honoured.  Unrecognised
+expressions (a refactoring) only show up as a correspondence difference. -/
+def wiringViolations (implObs : String) : List String :=
+  let fields := ["ForceIncomingEncryption", "DisableOutgoingEncryption", "ForceOutgoingEncryption"]
+  let t := words implObs
+  let inc := kvStr t "incoming.force"
+  let out := (kvStr t "outgoing.disable,force").splitOn ","
+  (if fields.contains inc ∧ inc ≠ "ForceIncomingEncryption" then
+     [s!"C12 forced-config-not-honoured site=torrent_connection.go force-param={inc}"] else []) ++
+  (match out with
+   | [d, f] =>
+     if fields.contains d ∧ fields.contains f ∧ (d ≠ "DisableOutgoingEncryption" ∨ f ≠ "ForceOutgoingEncryption") then
+       [s!"C12 forced-config-not-honoured site=torrent_peer.go disable-param={d} force-param={f}"] else []
+   | _ => [])
+
 def suite : Suite where
   name := "policy"
   runCase ops :=
@@ -128,7 +145,7 @@ def suite : Suite where
         | some "params" => (parseParams o.1 o.2, (o.2, []) :: acc, tags)
         | some "accept" => let (m, v, tg) := runAccept p t o.2; (p, (m, v) :: acc, tags ++ tg)
         | some "dial" => let (m, v, tg) := runDial p t o.2; (p, (m, v) :: acc, tags ++ tg)
-        | some "wiring" => (p, (wiringExpected, []) :: acc, tags ++ ["branch:wiring"])
+        | some "wiring" => (p, (wiringExpected, wiringViolations o.2) :: acc, tags ++ ["branch:wiring"])
         | _ => (p, ("unknown-op", []) :: acc, tags))
       (({} : Params), [], [])
     (acc.reverse, tags.eraseDups)
